@@ -6,6 +6,7 @@ import (
 	"go/constant"
 	"go/token"
 	"go/types"
+	"os"
 	"sort"
 	"strings"
 
@@ -302,6 +303,9 @@ func checkC09Comparator(c *Check, L *Loaded) {
 			t, known := truth(res)
 			if !known {
 				und++
+				if os.Getenv("VERIF_DEBUG") != "" && und < 4 {
+					fmt.Printf("R9.1 debug: less(%d,%d) = %#v\n", i, j, res)
+				}
 				continue
 			}
 			got[[2]int{i, j}] = t
@@ -520,12 +524,13 @@ func checkC09AliasLoop(c *Check, L *Loaded) {
 func checkC09ByName(c *Check, L *Loaded) {
 	r := c.Rule("R9.3", "argument maps are written under the placeholder's own name and read under the parameter's own name, never by position or a fixed key", 8)
 	n := map[string]int{}
-	for _, fi := range L.sortedFuncs() {
-		if fi.Decl.Body == nil {
-			continue
+	// single definitions of locals, per function
+	defsOf := map[*FuncInfo]map[types.Object]ast.Expr{}
+	getDefs := func(fi *FuncInfo) map[types.Object]ast.Expr {
+		if d, ok := defsOf[fi]; ok {
+			return d
 		}
 		info := fi.Pkg.TypesInfo
-		// single definitions of locals
 		defs := map[types.Object]ast.Expr{}
 		ast.Inspect(fi.Decl.Body, func(x ast.Node) bool {
 			if as, ok := x.(*ast.AssignStmt); ok && as.Tok == token.DEFINE && len(as.Lhs) == len(as.Rhs) {
@@ -537,69 +542,72 @@ func checkC09ByName(c *Check, L *Loaded) {
 			}
 			return true
 		})
-		var classify func(e ast.Expr, depth int) string
-		classify = func(e ast.Expr, depth int) string {
-			e = ast.Unparen(e)
-			switch x := e.(type) {
-			case *ast.SelectorExpr:
-				// X.Name.Literal on a ParameterInfo, X.Name on a struct field
-				if x.Sel.Name == "Literal" {
-					if inner, ok := ast.Unparen(x.X).(*ast.SelectorExpr); ok && inner.Sel.Name == "Name" {
-						if t := info.TypeOf(inner.X); t != nil && strings.HasSuffix(strings.TrimPrefix(t.String(), "*"), "ast.ParameterInfo") {
-							return "parameter name"
-						}
-					}
-				}
-				if x.Sel.Name == "Name" {
-					if t := info.TypeOf(x.X); t != nil && strings.HasSuffix(t.String(), "ddptypes.StructField") {
-						return "field name"
-					}
-				}
-			case *ast.CallExpr:
-				// strings.Trim(tok.Literal, "<>")
-				if fn := Callee(info, x); fn != nil && fn.Pkg() != nil && fn.Pkg().Path() == "strings" && strings.HasPrefix(fn.Name(), "Trim") && len(x.Args) >= 1 {
-					if s, ok := ast.Unparen(x.Args[0]).(*ast.SelectorExpr); ok && s.Sel.Name == "Literal" {
-						if t := info.TypeOf(s.X); t != nil && strings.HasSuffix(strings.TrimPrefix(t.String(), "*"), "token.Token") {
-							return "placeholder name"
-						}
-					}
-				}
-			case *ast.Ident:
-				o := info.Uses[x]
-				if d, ok := defs[o]; ok && depth < 3 {
-					return classify(d, depth+1)
-				}
-				// a string parameter of this function: judged at its call sites
-				if v, ok := o.(*types.Var); ok && fi.Obj != nil {
-					sig := fi.Obj.Type().(*types.Signature)
-					for i := 0; i < sig.Params().Len(); i++ {
-						if sig.Params().At(i) == v {
-							res := ""
-							for _, cs := range L.CallSites(fi.Obj) {
-								k := ""
-								csInfo := cs.Fn.Pkg.TypesInfo
-								if i < len(cs.Call.Args) {
-									a := ast.Unparen(cs.Call.Args[i])
-									if s, ok := a.(*ast.SelectorExpr); ok && s.Sel.Name == "Literal" {
-										if inner, ok := ast.Unparen(s.X).(*ast.SelectorExpr); ok && inner.Sel.Name == "Name" {
-											if t := csInfo.TypeOf(inner.X); t != nil && strings.HasSuffix(strings.TrimPrefix(t.String(), "*"), "ast.ParameterInfo") {
-												k = "parameter name"
-											}
-										}
-									}
-								}
-								if k == "" {
-									return ""
-								}
-								res = k
-							}
-							return res
-						}
+		defsOf[fi] = defs
+		return defs
+	}
+	var classifyIn func(fi *FuncInfo, e ast.Expr, depth int) string
+	classifyIn = func(fi *FuncInfo, e ast.Expr, depth int) string {
+		info := fi.Pkg.TypesInfo
+		defs := getDefs(fi)
+		e = ast.Unparen(e)
+		switch x := e.(type) {
+		case *ast.SelectorExpr:
+			// X.Name.Literal on a ParameterInfo, X.Name on a struct field
+			if x.Sel.Name == "Literal" {
+				if inner, ok := ast.Unparen(x.X).(*ast.SelectorExpr); ok && inner.Sel.Name == "Name" {
+					if t := info.TypeOf(inner.X); t != nil && strings.HasSuffix(strings.TrimPrefix(t.String(), "*"), "ast.ParameterInfo") {
+						return "parameter name"
 					}
 				}
 			}
-			return ""
+			if x.Sel.Name == "Name" {
+				if t := info.TypeOf(x.X); t != nil && strings.HasSuffix(t.String(), "ddptypes.StructField") {
+					return "field name"
+				}
+			}
+		case *ast.CallExpr:
+			// strings.Trim(tok.Literal, "<>")
+			if fn := Callee(info, x); fn != nil && fn.Pkg() != nil && fn.Pkg().Path() == "strings" && strings.HasPrefix(fn.Name(), "Trim") && len(x.Args) >= 1 {
+				if s, ok := ast.Unparen(x.Args[0]).(*ast.SelectorExpr); ok && s.Sel.Name == "Literal" {
+					if t := info.TypeOf(s.X); t != nil && strings.HasSuffix(strings.TrimPrefix(t.String(), "*"), "token.Token") {
+						return "placeholder name"
+					}
+				}
+			}
+		case *ast.Ident:
+			o := info.Uses[x]
+			if d, ok := defs[o]; ok && depth < 4 {
+				return classifyIn(fi, d, depth+1)
+			}
+			// a string parameter of this function: judged at its call sites (all of them must agree)
+			if v, ok := o.(*types.Var); ok && fi.Obj != nil && depth < 4 {
+				sig := fi.Obj.Type().(*types.Signature)
+				for i := 0; i < sig.Params().Len(); i++ {
+					if sig.Params().At(i) == v {
+						res := ""
+						for _, cs := range L.CallSites(fi.Obj) {
+							k := ""
+							if i < len(cs.Call.Args) {
+								k = classifyIn(cs.Fn, cs.Call.Args[i], depth+1)
+							}
+							if k == "" || (res != "" && res != k) {
+								return ""
+							}
+							res = k
+						}
+						return res
+					}
+				}
+			}
 		}
+		return ""
+	}
+	for _, fi := range L.sortedFuncs() {
+		if fi.Decl.Body == nil {
+			continue
+		}
+		info := fi.Pkg.TypesInfo
+		classify := func(e ast.Expr, depth int) string { return classifyIn(fi, e, depth) }
 		ast.Inspect(fi.Decl.Body, func(x ast.Node) bool {
 			ix, ok := x.(*ast.IndexExpr)
 			if !ok {
